@@ -292,10 +292,53 @@ def _coo(m):
             "shape": [int(v) for v in m.shape]}
 
 
-def _getter(fn):
+def _names_private_member(e):
+    """an AttributeError / TypeError whose message names a private attribute or helper (`'_something'`)"""
+    import re
+    return isinstance(e, (AttributeError, TypeError)) and re.search(r"['\"]_[A-Za-z]\w*['\"]", str(e)) is not None
+
+
+def _template_voronoi():
+    """a really constructed RotobjVoronoi on a small valid input (regular tetrahedron): everything the class's own
+    __init__ sets up exists; the synthetic cases then overwrite the PUBLIC attributes they want to control"""
+    from molgri.space.voronoi import RotobjVoronoi
+    P = np.array([[1.0, 1, 1], [1, -1, -1], [-1, 1, -1], [-1, -1, 1]]) / math.sqrt(3.0)
+    with core.quiet():
+        return RotobjVoronoi(P, using_detailed_grid=False)
+
+
+class _StubIncompatible(Exception):
+    pass
+
+
+def _stub_call(name, sv):
+    """call method `name` of the synthetic object `sv`.  A failure that names a private member is re-tried on a really
+    constructed object: if the call works there, the failure is in the stub plumbing (_StubIncompatible), not in the
+    package; otherwise it is the package's own exception and is reported as such."""
     try:
         with core.quiet():
+            return getattr(sv, name)()
+    except Exception as e:
+        if _names_private_member(e):
+            try:
+                with core.quiet():
+                    getattr(_template_voronoi(), name)()
+            except Exception:
+                raise e
+            raise _StubIncompatible(f"{name}: {type(e).__name__}: {e}")
+        raise
+
+
+def _getter(fn, stub=None):
+    """`fn`: bound getter of a really constructed object; with `stub` = (name, synthetic object) the call goes through
+    `_stub_call`"""
+    try:
+        if stub is not None:
+            return {"ok": _coo(_stub_call(*stub))}
+        with core.quiet():
             return {"ok": _coo(fn())}
+    except _StubIncompatible as e:
+        return {"stub_incompatible": str(e)}
     except Exception as e:  # the library's exception is part of the observable
         return {"err": core.errname(e)}
 
@@ -316,21 +359,25 @@ def _points(case):
 def impl(case):
     from molgri.space.voronoi import RotobjVoronoi
     out = {}
+    stub = None
     if case["kind"] == "synthetic":
-        sv = object.__new__(RotobjVoronoi)
+        # constructed by the class's own __init__ (small valid grid), then the public attributes are overwritten
+        sv = _template_voronoi()
         sv.centers = np.array(case["centers"], dtype=float)
         sv.vertices = np.array(case["vertices"], dtype=float)
         sv.regions = [list(r) for r in case["regions"]]
         sv.additional_points = None
         try:
-            with core.quiet():
-                red = sv.get_reduced_vertices_regions()
+            red = _stub_call("get_reduced_vertices_regions", sv)
             sv.reduced_vertices, sv.reduced_regions = red[0], red[1]
+        except _StubIncompatible as e:
+            return {"stub_incompatible": str(e)}
         except Exception as e:
             return {"centers": sv.centers, "vertices": sv.vertices, "regions": sv.regions,
                     "reduce": {"err": core.errname(e)}}
         obj = sv
-        getters = (sv.get_voronoi_adjacency, sv.get_cell_borders, sv.get_center_distances)
+        stub = sv
+        getters = (None, None, None)
     else:
         try:
             g, P = _points(case)
@@ -349,10 +396,14 @@ def impl(case):
     out["regions"] = [[int(x) for x in r] for r in obj.get_all_voronoi_regions(reduced=False)]
     out["reduce"] = {"ok": {"nv": np.array(obj.get_all_voronoi_vertices(reduced=True), dtype=float),
                             "nr": [[int(x) for x in r] for r in obj.get_all_voronoi_regions(reduced=True)]}}
-    out["adj"] = _getter(getters[0])
-    out["border"] = _getter(getters[1])
-    out["dist"] = _getter(getters[2])
-    out["adj2"] = _getter(getters[0])          # asked again after the other two
+    names = ("get_voronoi_adjacency", "get_cell_borders", "get_center_distances")
+    out["adj"] = _getter(getters[0], stub and (names[0], stub))
+    out["border"] = _getter(getters[1], stub and (names[1], stub))
+    out["dist"] = _getter(getters[2], stub and (names[2], stub))
+    out["adj2"] = _getter(getters[0], stub and (names[0], stub))          # asked again after the other two
+    inc = [out[k]["stub_incompatible"] for k in ("adj", "border", "dist", "adj2") if "stub_incompatible" in out[k]]
+    if inc:
+        return {"stub_incompatible": inc[0]}
     if case["kind"] != "synthetic":
         try:
             with core.quiet():
@@ -371,7 +422,7 @@ def _ratrows(a):
 
 
 def model_ops(case, out):
-    if "build_err" in out:
+    if "build_err" in out or "stub_incompatible" in out:
         return []
     return [{"op": "grid", "eps": core.rat(EPS_CERT), "centers": _ratrows(out["centers"]),
              "vertices": _ratrows(out["vertices"]), "regions": out["regions"]}]
@@ -426,6 +477,13 @@ def compare(ctx, case, out, mouts):
     tag = {k: case[k] for k in ("kind", "alg", "N") if k in case}
     if "build_err" in out:
         ctx.branch("build_error:" + out["build_err"])
+        return
+    if "stub_incompatible" in out:
+        # the synthetic object could not be driven (a private member the stub does not have, while the same call on a
+        # really constructed object works): harness plumbing, neither a correspondence break nor a failing input
+        if not ctx.dist.get("stub_incompatible"):
+            print(f"NOTE: [C03] synthetic object incompatible with the package's internals, case skipped: {out['stub_incompatible'][:200]}")
+        ctx.branch("stub_incompatible")
         return
     m = mouts[0]
     if "err" in m:
@@ -659,6 +717,8 @@ def reindex_clause(case, out, tag):
 def oracle_eval(case, out):
     """-> (list of failures (key, what, expected, observed), stats dict).  Pure; runs in worker processes."""
     fails, st = [], {}
+    if "stub_incompatible" in out:
+        return fails, st
     if case["kind"] == "synthetic":
         return reindex_clause(case, out, "synthetic")
     tag = f"{case['kind']}:{case['alg']}_{case['N']}"
